@@ -313,3 +313,39 @@ Proof.
   - apply (Hcl t1 (src_of n) t2 Et). unfold full_adj. apply in_or_app. now left.
   - now rewrite Hsel, Harg.
 Qed.
+
+(* ---------- nothing but reachable applications is ever emitted ---------- *)
+(* every source node of the emitted tree is a non-argument node that some scope owns ... *)
+Lemma spec_srcs_owned p (own_of : nat -> list nref) : forall fuel g u, In u (spec_srcs p own_of fuel g) ->
+  is_arg p u = false /\ exists g', In u (own_of g').
+Proof. induction fuel as [|f IH]; intros g u H; [destruct H|]. cbn [spec_srcs] in H. apply in_flat_map in H. destruct H as [w [Hw H]].
+  unfold node_spec in H. destruct (is_arg p w) eqn:Ea; [destruct H|]. destruct H as [<-|H]; [split; [exact Ea|exists g; exact Hw]|].
+  unfold node_subs in H. destruct w as [n|g0]; [|destruct H].
+  destruct (kind (getn p n)); try (destruct H; fail);
+    (apply in_flat_map in H; destruct H as [ka [_ H]]; unfold attr_spec in H; destruct (snd ka) as [sub|x]; [exact (IH sub u H)|destruct H]). Qed.
+
+(* ... and the owned nodes are taken from the one global traversal from the requested outputs: an application on which no requested
+   output depends is not emitted anywhere - not in the main graph, not in a body, whatever was constructed before (no validator) *)
+Theorem build_main_emits_only_reachable ffuel p un main b u :
+  build_main ffuel p un main = inl b -> In u (srcs_graph (b_graph b)) -> In u (topo_of p main) /\ is_arg p u = false.
+Proof. intros H Hu. destruct (build_main_emission _ _ _ _ _ H) as (d & _ & E & _). rewrite E in Hu.
+  destruct (spec_srcs_owned p _ _ _ _ Hu) as [Ha [g' Hg]]. split; [|exact Ha]. unfold own_of_def in Hg. apply filter_In in Hg. tauto. Qed.
+
+Theorem build_public_emits_only_reachable p r m inputs outputs :
+  build_public p r = inl m -> all_vars (r_inputs r) = Some inputs -> all_vars (r_outputs r) = Some outputs ->
+  exists args, (r_drop r = false -> args = map snd inputs) /\ (forall a, In a args -> In a (map snd inputs)) /\
+    forall u, In u (srcs_graph (mmain m)) ->
+      In u (topo_of (with_main p (Some args) outputs) 0) /\ is_arg (with_main p (Some args) outputs) u = false.
+Proof.
+  unfold build_public. intros H Hi Ho. rewrite Hi, Ho in H.
+  destruct (negb _); [discriminate|]. destruct outputs as [|o os]; [discriminate|].
+  apply bind_ok in H. destruct H as [args [Ha H]]. apply bind_ok in H. destruct H as [b [Hb H]].
+  apply bind_ok in H. destruct H as [m' [Hm H]]. pose proof (to_model_struct _ _ Hm) as (_ & Hmg & _).
+  destruct (mmain m') as [gi body go_] eqn:Eg. destruct (forallb _ gi); [|discriminate]. inversion H; subst m'. rewrite Eg.
+  exists args. split; [intros Hd; rewrite Hd in Ha; inversion Ha; reflexivity|]. split.
+  - destruct (r_drop r).
+    + apply bind_ok in Ha. destruct Ha as [b1 [_ Ha]]. destruct (forallb _ (b_args b1)); [|discriminate]. inversion Ha; subst.
+      intros a Hin. apply filter_In in Hin. tauto.
+    + inversion Ha; subst. auto.
+  - intros u Hu. rewrite Hmg in Hu. eapply build_main_emits_only_reachable; eauto.
+Qed.
